@@ -748,6 +748,7 @@ func runC05(r *harness.Run) {
 	pr.runGens(map[string]Gen{"F-errval": genErrVal(th), "F-cooverflow": genCoOverflow(), "F-yieldacross": genYieldAcross(), "F-hostbody": genHostBody(), "F-closure": genClosure(false)}, []string{"F-errval", "F-cooverflow", "F-yieldacross", "F-hostbody", "F-closure"})
 	c05GoResume(r)
 	runPinned(r, "C05")
+	reentrantFamily(r, "C05")
 	overflowHistory(r)
 }
 
